@@ -141,6 +141,30 @@ def check_protected_bstr(ctx, rule):
     agg = codec.OkAggregate(ph, pv)
     good = False
     det = {}
+    oks_ = [o for o in outcomes(ph, pv) if o["kind"] == "ok"]
+    if agg.problem and len(oks_) == 2 and all(o["inner"][0] == "aggr" and o["inner"][1] == "header::ProtectedHeader" for o in oks_):
+        # the empty-bstr shortcut as an early `return Ok(..)`: two literals, each under its own side of the emptiness test
+        datas = set()
+        seen = {}
+        for o in oks_:
+            flds = dict(o["inner"][3])
+            od = flds.get("original_data")
+            if od and od[0] == "aggr" and od[2] == "Some":
+                datas.add(od[3][0][1])
+            for c in o["conds"]:
+                nb = normalize_bool_cond(c)
+                if nb and is_call(nb[0]) and nb[0][1].endswith("::is_empty"):
+                    a = nb[0][2][0]
+                    inner = a[1] if a[0] == "ref" else a
+                    if od and inner == od[3][0][1]:
+                        seen[nb[1]] = flds.get("header")
+        det["header_arms"] = [show(v)[:120] for v in seen.values() if v]
+        if len(datas) == 1:
+            data = next(iter(datas))
+            e, ne = seen.get(True), seen.get(False)
+            good = bool(data[0] == "tryok" and is_call(data[1], codec.TRY_BYTES) and data[1][2] == (("param", 0),)
+                        and e is not None and ne is not None and is_call(e, "<header::Header as core::default::Default>::default")
+                        and ne[0] == "tryok" and is_call(ne[1], "header::Header::from_cbor_value_depth"))
     if not agg.problem and agg.adt == "header::ProtectedHeader":
         data = None
         od = agg.term("original_data")
